@@ -332,7 +332,7 @@ fn judge_scripts(g: &G, text: &str) -> Outcome {
 
 fn case_regress(doc: &serde_json::Value) -> Outcome {
     if doc.get("mask").is_none() {
-        return match G::from_json(&doc["g"]) {
+        return match super::common::grammar_from_doc(doc) {
             Some(g) => judge_scripts(&g, &print_minimal(&g)),
             None => Outcome::Broken("bad regress file".into()),
         };
